@@ -79,6 +79,10 @@ def run(ctx):
             (dict(hosts=["10.0.0.1", "10.0.0.2"], rounds=14), 1),
             (dict(hosts=["10.0.0.1", "10.0.0.2", "fe80::1"], rounds=12, **small), 1),
             (dict(hosts=["10.0.0.1"], rounds=7, **small), 2),
+            # from non-initial states: connected then dropped; authentication failed; closed then re-triggered
+            (dict(hosts=["10.0.0.1", "10.0.0.2"], rounds=6, prelude=["ok|10.0.0.1|ok", "drop"], **small), 1),
+            (dict(hosts=["10.0.0.1"], rounds=5, prelude=["ok|10.0.0.1|auth-error"], **small), 2),
+            (dict(hosts=["10.0.0.1"], rounds=6, prelude=["refuse", "timer", "refuse", "timer", "refuse", "close", "zc-same"], **small), 1),
         ]
     else:
         configs = [
@@ -86,6 +90,10 @@ def run(ctx):
             (dict(hosts=["10.0.0.1", "10.0.0.2"], rounds=10), 2),
             (dict(hosts=["10.0.0.1", "10.0.0.2", "fd00::1"], rounds=14), 1),
             (dict(hosts=["10.0.0.1", "10.0.0.2"], rounds=7, **small), 3),
+            (dict(hosts=["10.0.0.1", "10.0.0.2"], rounds=8, prelude=["ok|10.0.0.1|ok", "drop"]), 2),
+            (dict(hosts=["10.0.0.1"], rounds=6, prelude=["ok|10.0.0.1|auth-error"]), 2),
+            (dict(hosts=["10.0.0.1"], rounds=8, prelude=["refuse", "timer", "refuse", "timer", "refuse", "close", "zc-same"]), 2),
+            (dict(hosts=["10.0.0.1", "10.0.0.2", "fd00::1"], rounds=8, prelude=["ok|10.0.0.1|wrong-id", "ok|10.0.0.2|wrong-id"], **small), 2),
         ]
     work = plan(ctx, configs)
     ctx.bounds.update(configs=[dict(hosts=c["hosts"], rounds=c["rounds"], deviations=d) for c, d in configs])
